@@ -355,6 +355,17 @@ def oracle(case):
 					return {'what': 'check() rejects the field composed from the same credentials', 'field': w.hex(), 'params': describe(case)[1], 'finding': None}
 			except Exception as e:
 				return {'what': 'check() raised %s' % exc_name(e), 'params': describe(case)[1], 'finding': None}
+			# a server that copies the received parameters (the response among them) into its own data and adds what it
+			# knows must still verify the response: with another password the field must not verify
+			if 'password' in p and p.get('A1') is None:
+				lax = dict(p)
+				lax.update(gotd)
+				lax['password'] = p['password'] + b'!'
+				try:
+					if D.check(bud(lax), got_ps):
+						return {'what': 'check() accepts the field although the server data (received parameters + another password) do not give its response', 'field': w.hex(), 'params': describe(case)[1], 'finding': None}
+				except Exception as e:
+					return {'what': 'check() raised %s' % exc_name(e), 'params': describe(case)[1], 'finding': None}
 	if case[0] == 'perturb':
 		given = bud({'realm': p['realm'], 'response': ref})
 		for q in perturbations(p):
